@@ -17,7 +17,8 @@ def determinism(run, name, recs):
         if "mismatch" in o:
             rec = recs[o["mismatch"]]
             run.violation("C16/determinism", "%s: %s" % (ef.show_prog(rec["prog"]), "; ".join(o["why"])), {"family": "determinism", "record": rec, "neighbour": recs[(o["mismatch"] + 1) % len(recs)], "why": o["why"]})
-    run.leg("R:determinism/" + name, cases=len(recs), mismatches=summ[0]["summary"]["mismatches"])
+    run.leg("R:determinism/" + name, cases=len(recs), mismatches=summ[0]["summary"]["mismatches"], text_path_cases=summ[0]["summary"].get("text_path", 0),
+            text_path_skipped=summ[0]["summary"].get("text_path_skipped", 0))
 
 
 def check(run):
@@ -27,7 +28,8 @@ def check(run):
                      "registry) and machine = Den on the statement-chain family (programs that assign, fail midway and reuse names); leg R: every such behaviour is evaluated three times on equal fresh "
                      "contexts, interleaved with its neighbours' evaluations in the same process; outcomes must be identical and equal the denotation, the registry snapshot (hook H5: names, precedence, "
                      "associativity, type, handler identity) equal before and after every parse and evaluation, and parsing the rendered program twice (with an unrelated failing parse in between) must "
-                     "give equal trees; records with the same program share ONE ExprAST value that is evaluated on each of their contexts in turn; "
+                     "give equal trees; records with the same program share ONE ExprAST value that is evaluated on each of their contexts in turn; every program is also rendered, copied into ONE line buffer "
+                     "that is reused for all programs, parsed from there and evaluated, and where the text parses back to the specified tree the outcome must be the denotation; "
                      "non-trivial = every case (each is compared across 3 runs)")
     run.rules.append("leg T: %d random programs evaluated concurrently by 8 threads, each on its own contexts, no registrations: every recorded outcome validated by TLC against Den; "
                      "sequential histories in fresh processes interleaving evaluations of different registry cells validated against the atomic engine" % (16000 if thorough else 2400))
